@@ -16,11 +16,11 @@ namespace Torf.Pipeline
 
 inductive Tid where
   | main | reader | hasher (i : Nat) | janitor
-deriving DecidableEq, Repr, Inhabited
+deriving DecidableEq, Repr, Inhabited, Hashable
 
 inductive Decision where
   | pass | cancel | raise
-deriving DecidableEq, Repr, Inhabited
+deriving DecidableEq, Repr, Inhabited, Hashable
 
 /-- what the reader's generator yields for a piece -/
 inductive ItemKind where
@@ -28,7 +28,7 @@ inductive ItemKind where
   | mismatch    -- bytes whose digest differs from the stored one (verify only)
   | nodata      -- `None` without exceptions (middle piece of a missing file)
   | exc         -- `None` with exceptions
-deriving DecidableEq, Repr, Inhabited
+deriving DecidableEq, Repr, Inhabited, Hashable
 
 structure Cfg where
   N : Nat                        -- hasher threads requested
@@ -47,27 +47,27 @@ inductive Exc where
   | startRefused (t : Tid)       -- RuntimeError: can't start new thread
   | assertion                    -- `assert piece_index not in self._pieces_seen`
   | index                        -- IndexError: self._hashers[0] (unreachable with the fixed start order)
-deriving DecidableEq, Repr, Inhabited
+deriving DecidableEq, Repr, Inhabited, Hashable
 
 inductive Result where
   | returned (collected : List Nat)   -- `Collector.collect` returned; piece indexes with a digest, in arrival order
   | raised (e : Exc)
-deriving DecidableEq, Repr, Inhabited
+deriving DecidableEq, Repr, Inhabited, Hashable
 
 inductive RPc where
   | notStarted | refused | begin_ | putting (k : Nat) | closing | done
-deriving DecidableEq, Repr, Inhabited
+deriving DecidableEq, Repr, Inhabited, Hashable
 
 inductive HPc where
   | notStarted | refused | begin_ | getting | holding (k : Nat) | requeue | setEv | done
-deriving DecidableEq, Repr, Inhabited
+deriving DecidableEq, Repr, Inhabited, Hashable
 
 inductive JPc where
   | notStarted | refused | begin_ | waiting
   | prune (snap : List Nat)      -- remaining snapshot of `tuple(self._hashers)`
   | spin (rest : List Nat)       -- remaining part of `all(not h.is_running for h in self._hashers)`
   | closing | done
-deriving DecidableEq, Repr, Inhabited
+deriving DecidableEq, Repr, Inhabited, Hashable
 
 inductive MPc where
   | startReaderChk | startReader
@@ -78,7 +78,7 @@ inductive MPc where
   | joinHasherChk (h idx : Nat) (e : Option Exc) | joinHasher (h idx : Nat) (e : Option Exc)
   | joinJanitorChk (e : Option Exc) | joinJanitor (e : Option Exc)
   | finished (r : Result)
-deriving DecidableEq, Repr, Inhabited
+deriving DecidableEq, Repr, Inhabited, Hashable
 
 structure State where
   main : MPc := .startReaderChk
@@ -93,7 +93,7 @@ structure State where
   tracked : List Nat := []             -- HasherPool._hashers (hasher numbers)
   seen : List Nat := []                -- Collector._pieces_seen
   collected : List Nat := []           -- Collector._hashes_unsorted (indexes)
-deriving Repr, Inhabited
+deriving Repr, Inhabited, DecidableEq, Hashable
 
 def init (cfg : Cfg) : State :=
   { hs := List.replicate cfg.N .notStarted, tracked := List.range cfg.N }
@@ -101,7 +101,7 @@ def init (cfg : Cfg) : State :=
 structure Label where
   tid : Tid
   timeout : Bool := false
-deriving DecidableEq, Repr, Inhabited
+deriving DecidableEq, Repr, Inhabited, Hashable
 
 /-! ### helpers -/
 
